@@ -92,6 +92,14 @@ func (sfs *worktreeFilesystem) Stat(filename string) (os.FileInfo, error) {
 	if err := sfs.validReadPath(filename); err != nil {
 		return nil, fmt.Errorf("stat: %w", err)
 	}
+	// Stat follows a symlink in the final component, which would report on
+	// whatever the link points at, inside or outside the worktree. Nothing
+	// in a worktree is ever reached through a link (see
+	// validNoLeadingSymlink), so refuse it here as well. Callers that want
+	// to know about the link itself use Lstat.
+	if err := sfs.validNoFinalSymlink(filename); err != nil {
+		return nil, fmt.Errorf("stat: %w", err)
+	}
 	return sfs.Filesystem.Stat(filename)
 }
 
@@ -111,6 +119,13 @@ func (sfs *worktreeFilesystem) Rename(from, to string) error {
 
 func (sfs *worktreeFilesystem) ReadDir(path string) ([]fs.DirEntry, error) {
 	if err := sfs.validReadPath(path); err != nil {
+		return nil, fmt.Errorf("readdir: %w", err)
+	}
+	// A symlink to a directory is a leaf of the worktree, never a directory
+	// of it: listing it would enumerate the link's target (e.g. a pattern
+	// such as "*/*" handed to AddGlob would list the directory a planted
+	// link points at).
+	if err := sfs.validNoFinalSymlink(path); err != nil {
 		return nil, fmt.Errorf("readdir: %w", err)
 	}
 	return sfs.Filesystem.ReadDir(path)
@@ -184,8 +199,8 @@ func (sfs *worktreeFilesystem) Chroot(path string) (billy.Filesystem, error) {
 	// scope (e.g. a submodule worktree) to a target outside the tree. This
 	// is the "valid path, wrong target" case that validNoLeadingSymlink,
 	// which only inspects leading components, does not cover.
-	if fi, err := sfs.Filesystem.Lstat(path); err == nil && fi.Mode()&os.ModeSymlink != 0 {
-		return nil, fmt.Errorf("chroot: invalid path %q: is a symlink", path)
+	if err := sfs.validNoFinalSymlink(path); err != nil {
+		return nil, fmt.Errorf("chroot: %w", err)
 	}
 	return sfs.Filesystem.Chroot(path)
 }
@@ -316,6 +331,20 @@ func (sfs *worktreeFilesystem) validNoLeadingSymlink(paths ...string) error {
 				return fmt.Errorf("invalid path %q: leading component %q is a symlink", p, dir)
 			}
 		}
+	}
+	return nil
+}
+
+// validNoFinalSymlink rejects a path whose final component exists on the
+// underlying filesystem as a symlink. It complements validNoLeadingSymlink
+// for the operations that would otherwise follow such a link (Stat, ReadDir,
+// Chroot). The worktree root itself is exempt.
+func (sfs *worktreeFilesystem) validNoFinalSymlink(p string) error {
+	if p == "" || p == "." || p == "/" {
+		return nil
+	}
+	if fi, err := sfs.Filesystem.Lstat(p); err == nil && fi.Mode()&os.ModeSymlink != 0 {
+		return fmt.Errorf("invalid path %q: is a symlink", p)
 	}
 	return nil
 }
